@@ -6,3 +6,9 @@ const (
 	Warm Color = "warm"
 	Cold Color = "cold"
 )
+
+// Label shares its local name with a struct of the importing package.
+type Label struct {
+	Ref  int
+	Note string
+}
